@@ -89,6 +89,8 @@ macro_rules! vecfam {
                         let lo = a.min(b);
                         // bounds that coincide in some lanes are valid (min <= max)
                         let hi = if r.below(3) == 0 { <$V>::select(<$V>::X.cmpgt(<$V>::ZERO), lo, a.max(b)) } else { a.max(b) };
+                        // the bounds carry their own (independent) unused lanes
+                        let (lo, hi) = (lo.dress(r), hi.dress(r));
                         let v = pick!(p.v).clamp(lo, hi);
                         keep(&mut p.v, v, r);
                         out!("clamp", v);
@@ -474,6 +476,78 @@ pub fn catalogue() -> Vec<Case> {
     cases.push(("Mat3A::inverse(singular)".into(), Box::new(|| { let _ = bb(bb(Mat3A::from_diagonal(Vec3::new(1.0, 0.0, 3.0))).inverse()); })));
     cases.push(("Mat3A::from_scale(ZERO)".into(), Box::new(|| { let _ = bb(Mat3A::from_scale(bb(Vec2::ZERO))); })));
     cases
+}
+
+/// Boundary inputs that *meet* the documented preconditions (equality where the documentation says <=, zero bounds, tiny but
+/// invertible matrices): must not panic in any build.
+pub fn valid_boundaries(mon: &mut Monitor) {
+    let mut cases: Vec<Case> = vec![];
+    macro_rules! iv {
+        ($($V:ident, $N:expr);*) => {$({
+            let t = stringify!($V);
+            for lane in 0..$N {
+                let mut lo = [1; $N];
+                let mut hi = [5; $N];
+                lo[lane] = 3; hi[lane] = 3; // min == max in one lane
+                let (lo, hi) = (<$V>::from_array(lo), <$V>::from_array(hi));
+                cases.push((format!("{}::clamp(min == max in lane {})", t, lane), Box::new(move || { let _ = bb(bb(<$V>::ONE).clamp(bb(lo), bb(hi))); })));
+            }
+            cases.push((format!("{}::clamp(min == max everywhere)", t), Box::new(move || { let _ = bb(bb(<$V>::ONE).clamp(bb(<$V>::splat(2)), bb(<$V>::splat(2)))); })));
+        })*};
+    }
+    iv!(I8Vec2, 2; I8Vec3, 3; I8Vec4, 4; U8Vec2, 2; U8Vec3, 3; U8Vec4, 4; I16Vec2, 2; I16Vec3, 3; I16Vec4, 4; U16Vec2, 2; U16Vec3, 3; U16Vec4, 4;
+        IVec2, 2; IVec3, 3; IVec4, 4; UVec2, 2; UVec3, 3; UVec4, 4; I64Vec2, 2; I64Vec3, 3; I64Vec4, 4; U64Vec2, 2; U64Vec3, 3; U64Vec4, 4; USizeVec2, 2; USizeVec3, 3; USizeVec4, 4);
+    macro_rules! fv {
+        ($($V:ident, $S:ty, $N:expr);*) => {$({
+            let t = stringify!($V);
+            for lane in 0..$N {
+                let mut lo = [-1.0 as $S; $N];
+                let mut hi = [2.0 as $S; $N];
+                lo[lane] = 0.5; hi[lane] = 0.5;
+                let (lo, hi) = (<$V>::from_array(lo), <$V>::from_array(hi));
+                cases.push((format!("{}::clamp(min == max in lane {})", t, lane), Box::new(move || { let _ = bb(bb(<$V>::ONE).clamp(bb(lo), bb(hi))); })));
+            }
+            cases.push((format!("{}::clamp_length(min == max)", t), Box::new(|| { let _ = bb(bb(<$V>::ONE).clamp_length(bb(1.5), bb(1.5))); })));
+            cases.push((format!("{}::clamp_length(0, 0)", t), Box::new(|| { let _ = bb(bb(<$V>::ONE).clamp_length(bb(0.0), bb(0.0))); })));
+            cases.push((format!("{}::clamp_length_max(0)", t), Box::new(|| { let _ = bb(bb(<$V>::ONE).clamp_length_max(bb(0.0))); })));
+            cases.push((format!("{}::clamp_length_min(0)", t), Box::new(|| { let _ = bb(bb(<$V>::ONE).clamp_length_min(bb(0.0))); })));
+            cases.push((format!("{}::clamp(-0, +0)", t), Box::new(|| { let _ = bb(bb(<$V>::ONE).clamp(bb(<$V>::splat(-0.0)), bb(<$V>::splat(0.0)))); })));
+        })*};
+    }
+    fv!(Vec2, f32, 2; Vec3, f32, 3; Vec3A, f32, 3; Vec4, f32, 4; DVec2, f64, 2; DVec3, f64, 3; DVec4, f64, 4);
+    // uniformly small (or large) but perfectly conditioned matrices are invertible: det != 0
+    for k in [0i32, 8, 16, 24, 30, -8, -16, -24, -30] {
+        let s = (k as f32).exp2();
+        let sd = (k as f64 * 4.0).exp2();
+        cases.push((format!("Mat2::inverse(rotation * 2^{})", -k), Box::new(move || { let _ = bb(bb(Mat2::from_angle(0.7) * (1.0 / s)).inverse()); })));
+        cases.push((format!("Mat3::inverse(rotation * 2^{})", -k), Box::new(move || { let _ = bb(bb(Mat3::from_rotation_z(0.7) * (1.0 / s)).inverse()); })));
+        cases.push((format!("Mat3A::inverse(rotation * 2^{})", -k), Box::new(move || { let _ = bb(bb(Mat3A::from_rotation_y(0.7) * (1.0 / s)).inverse()); })));
+        cases.push((format!("Mat4::inverse(rotation * 2^{})", -k), Box::new(move || { let _ = bb(bb(Mat4::from_rotation_x(0.7) * (1.0 / s)).inverse()); })));
+        cases.push((format!("Affine3A::inverse(scale 2^{})", -k), Box::new(move || { let _ = bb(bb(Affine3A::from_scale(Vec3::splat(1.0 / s))).inverse()); })));
+        cases.push((format!("Affine2::inverse(scale 2^{})", -k), Box::new(move || { let _ = bb(bb(Affine2::from_scale(Vec2::splat(1.0 / s))).inverse()); })));
+        cases.push((format!("DMat2::inverse(rotation * 2^{})", -4 * k), Box::new(move || { let _ = bb(bb(DMat2::from_angle(0.7) * (1.0 / sd)).inverse()); })));
+        cases.push((format!("DMat3::inverse(rotation * 2^{})", -4 * k), Box::new(move || { let _ = bb(bb(DMat3::from_rotation_z(0.7) * (1.0 / sd)).inverse()); })));
+        cases.push((format!("DMat4::inverse(rotation * 2^{})", -4 * k), Box::new(move || { let _ = bb(bb(DMat4::from_rotation_x(0.7) * (1.0 / sd)).inverse()); })));
+        cases.push((format!("DAffine3::inverse(scale 2^{})", -4 * k), Box::new(move || { let _ = bb(bb(DAffine3::from_scale(DVec3::splat(1.0 / sd))).inverse()); })));
+        cases.push((format!("DAffine2::to_scale_angle_translation(scale 2^{})", -4 * k), Box::new(move || { let _ = bb(bb(DAffine2::from_scale_angle_translation(DVec2::splat(1.0 / sd), 0.3, DVec2::ONE)).to_scale_angle_translation()); })));
+        cases.push((format!("Mat4::to_scale_rotation_translation(scale 2^{})", -k), Box::new(move || { let _ = bb(bb(Mat4::from_scale_rotation_translation(Vec3::splat(1.0 / s), Quat::from_rotation_y(0.4), Vec3::ONE)).to_scale_rotation_translation()); })));
+    }
+    if let Some(mut c) = mon.begin("valid boundaries", "catalogue: must not panic in any build") {
+        for (name, f) in &cases {
+            let r = catch_unwind(AssertUnwindSafe(|| f()));
+            c.event(hash_str(name), true);
+            if r.is_err() {
+                let key: &str = name.split('(').next().unwrap_or(name);
+                if c.wants_witness("panic_on_valid_input", &[key]) {
+                    c.violation("panic_on_valid_input", &[key], name.to_string(), last_panic(), "no panic".into(), "the input meets the documented precondition (min <= max, bound >= 0, determinant != 0)".into());
+                } else {
+                    c.st.violations += 1;
+                }
+            }
+        }
+        c.sample(format!("{} boundary inputs that meet the documented preconditions (min == max per lane for all 34 vector types, zero length bounds, uniformly scaled invertible matrices 2^-120..2^120)", cases.len()));
+        mon.end(c);
+    }
 }
 
 /// Documented precondition violations: must panic with the assertions compiled in, must not without.
